@@ -371,7 +371,7 @@ def has_empty_body(func_ast: ast.FunctionDef) -> bool:
     if len(func_ast.body) > 1:
         return False
     [n] = func_ast.body
-    return (
+    return isinstance(n, ast.Pass) or (
         isinstance(n, ast.Expr)
         and isinstance(n.value, ast.Constant)
         and n.value.value == Ellipsis
